@@ -193,6 +193,37 @@ def callee_shape_programs():
     return out
 
 
+def ctx_switch_programs():
+    """a context switch between two accesses of the same address: the last access before the switch (a word store or a read
+    of a non-zero word) x every way of changing the context (call, dyncall, syscall, each return) x the first access after
+    it (element store, element load, word load), for an absolute address and for a local"""
+    K = ("export.kst\n  push.9 mem_store.5 padw mem_loadw.5 dropw\nend\nexport.kld\n  mem_load.5 drop padw mem_loadw.5 dropw\nend\n"
+         "export.kw\n  push.11.12.13.14 mem_storew.5 dropw\nend\nexport.kr\n  push.11.12.13.14 mem_storew.5 dropw padw mem_loadw.5 dropw\nend\n")
+    before = {"storew": "push.1.2.3.4 mem_storew.5 dropw", "read": "push.1.2.3.4 mem_storew.5 dropw push.3 drop padw mem_loadw.5 dropw"}
+    after = {"store": "push.9 mem_store.5 padw mem_loadw.5 dropw", "load": "mem_load.5 drop padw mem_loadw.5 dropw", "loadw": "padw mem_loadw.5 dropw"}
+    out = []
+
+    def add(name, src, kernel=None):
+        out.append({"src": src, "kernel": kernel, "inputs": [], "adv": [], "class": "ctxswitch-" + name})
+    for bn, b in before.items():
+        for an, a in after.items():
+            add("call-in-%s-%s" % (bn, an), "proc.f %s end begin %s call.f padw mem_loadw.5 dropw end" % (a, b))
+            add("call-out-%s-%s" % (bn, an), "proc.f %s end begin call.f %s end" % (b, a))
+            add("dyncall-in-%s-%s" % (bn, an), "proc.f %s end begin %s procref.f dyncall dropw padw mem_loadw.5 dropw end" % (a, b))
+            add("nested-%s-%s" % (bn, an), "proc.f %s end proc.g %s call.f %s end begin %s call.g %s end" % (a, b, a, b, a))
+    for an, kp in (("store", "kst"), ("load", "kld")):
+        add("syscall-in-%s" % an, "proc.g push.1.2.3.4 mem_storew.5 dropw syscall.%s padw mem_loadw.5 dropw end begin push.5.6.7.8 mem_storew.5 dropw call.g padw mem_loadw.5 dropw end" % kp, K)
+    for bn, kp in (("storew", "kw"), ("read", "kr")):
+        for an, a in after.items():
+            add("syscall-out-%s-%s" % (bn, an), "proc.g syscall.%s %s end begin call.g padw mem_loadw.5 dropw end" % (kp, a), K)
+    # locals: local 0 has the same address in every context created by a call
+    for an, a in (("store", "push.9 loc_store.0 padw loc_loadw.0 dropw"), ("load", "loc_load.0 drop padw loc_loadw.0 dropw")):
+        add("local-in-" + an, "proc.f.1 %s end proc.g.1 push.1.2.3.4 loc_storew.0 dropw call.f padw loc_loadw.0 dropw end begin call.g end" % a)
+        add("local-out-" + an, "proc.f.1 push.1.2.3.4 loc_storew.0 dropw end proc.g.1 call.f %s end begin call.g end" % a)
+        add("local-exec-" + an, "proc.f.1 %s end proc.g.1 push.1.2.3.4 loc_storew.0 dropw exec.f padw loc_loadw.0 dropw end begin call.g end" % a)
+    return out
+
+
 def fri_programs():
     """FRIE2F4 for each domain segment: the previous layer's value must equal the query value of that segment"""
     out = []
